@@ -9,7 +9,7 @@ R3 the span list is root-to-leaf
 """
 from rulekit import Facts, where
 from rulekit.sym import PathEval, show
-from rulekit.query import guards_of
+from rulekit.query import guards_of, loop_body_always_calls
 
 J = "tracing_subscriber::fmt::format::json::"
 FE = "tracing_subscriber::fmt::format::FormatEvent"
@@ -28,7 +28,7 @@ def run(ck):
         "BTreeMap (unique keys) with it before recording, and replace the stored string only on success; the span list is "
         "built from scope().from_root(). JSON validity/escaping itself is serde_json's contract and is NOT decided.")
     ck.assumptions += ["serde_json produces valid JSON for every input it accepts", "field names/values reach the visitor as C10 establishes"]
-    ck.rule("C14.R1", "only the serializer writes record content; one terminating newline", floor=5)
+    ck.rule("C14.R1", "only the serializer writes record content; one terminating newline; every collected field serialised", floor=6)
     ck.rule("C14.R2", "later record calls merge into the stored object (owned keys); replaced only on success", floor=6)
     ck.rule("C14.R3", "span list is root to leaf", floor=1)
     r1(ck, F)
@@ -86,6 +86,20 @@ def r1(ck, F):
             ck.ok("C14.R1", "WriteAdaptor::write forwards the whole buffer once and reports its length", fn=wa.path)
         else:
             ck.bad("C14.R1", "WriteAdaptor::write forwards the whole buffer once and reports its length", where(wa.raw["sp"]), "write_str calls %d, Ok returns %s" % (len(ws), rets), fn=wa.path)
+    # JsonVisitor::finish serialises every collected entry: the loop over `values` has no iteration that skips serialize_entry
+    fin = F.impl_method("tracing_subscriber::field::VisitOutput<core::result::Result<(), core::fmt::Error>>", J + "JsonVisitor<", "finish") or \
+        next((b for b in F.body_list if b.path.endswith(">::finish") and "json::JsonVisitor<" in b.path), None)
+    if ck.anchor("C14.R1", "JsonVisitor::finish", fin):
+        cl = [c for c in F.closures_of(fin) if any(t["callee"].get("method") == "serialize_entry" for bb, t in c.calls())]
+        if len(cl) != 1:
+            ck.bad("C14.R1", "finish: every collected field is serialised", where(fin.raw["sp"]), "expected one closure serialising the entries, found %d" % len(cl), fn=fin.path)
+        else:
+            n, probs = loop_body_always_calls(cl[0], lambda c: c[1].get("method") == "serialize_entry")
+            if n and not probs:
+                ck.ok("C14.R1", "finish: every collected field is serialised (no entry is filtered out)", fn=cl[0].path)
+            else:
+                ck.bad("C14.R1", "finish: every collected field is serialised (no entry is filtered out)", where(cl[0].raw["sp"]),
+                       "; ".join(probs) or "no loop over the collected values found", fn=cl[0].path)
     # tracing-serde visitors only use the serde API
     n = 0
     for i in F.impls:
